@@ -3,6 +3,7 @@
 Protocol lines (model `join`, lean/PygModel/JoinDriver.lean):
   (join join <x> <y> <lcols> <rcols> <mode> <spelling>)  ->  ok (T <result> <x after> <y after>)
   (join xor  <x> <y> <lcols> <rcols> <mode> <spelling>)  ->  ok (T <result> <x after> <y after>)
+  (join listby (L (T cell*)*))                           ->  ok (L (T <group key> (L <row ids>))*)     dictable._listby
 tables are dicts of equally long lists; <lcols>/<rcols> are N or a list of S:<hex name> | (fn id S:name) |
 (fn dbl S:name) | (fn const); <mode> is mN | ml0 | mlS | mlL | mr1 | mrS | mrR | (mf fst|snd|swap|lst);
 <spelling> = sp:<l><r>[o]: how the column lists are written in python (l list, t tuple, b bare item; o = use the
@@ -18,17 +19,21 @@ from ..engine import Finding, Timeout
 ID = 'C02'
 TITLE = 'join is the relational inner/cross join and xor the anti-join; both terminate'
 STATEMENT = ('join returns, as a multiset of rows, exactly the pairs (l, r) whose keys are equal (int = same-valued float, None = None, '
-             'NaN = NaN), with no key the cross product; xor returns exactly the rows of x whose key matches no row of y; both terminate '
-             'and leave both operands unchanged')
-LEAN_FILES = ['Basic', 'Cmp', 'Sort', 'TableBasic', 'Join', 'JoinDriver', 'Tri', 'CmpLemmas', 'JoinLemmas', 'C02']
-RULE = ('distinct protocol lines (one join / xor call on a pair of tables) on which the implementation returned a table and at '
-        'least one of the two operands has 2 or more rows')
-TRUSTED = ['correspondence harness (pv.engine, pv.proto) and generators / reference join of pv.props.c02',
+             'NaN = NaN), each carrying the key, every other column of both sides and same-named non-key columns combined by mode; with '
+             'no key the cross product; xor returns exactly the rows of x whose key matches no row of y; both terminate and leave both '
+             'operands unchanged')
+LEAN_FILES = ['Basic', 'Cmp', 'Sort', 'TableBasic', 'Join', 'JoinDriver', 'Tri', 'CmpLemmas', 'JoinLemmas', 'KeyEq', 'JoinCols', 'C02']
+RULE = ('distinct protocol lines (one join / xor call on a pair of tables, or one _listby call) on which the implementation returned a '
+        'table / group list and at least one of the operands has 2 or more rows')
+TRUSTED = ['correspondence harness (pv.engine, pv.proto) and generators / reference join + xor (statement_check) of pv.props.c02',
            'Lean driver parser/printer (PygModel/Basic.lean, JoinDriver.lean)']
-ASSUMPTIONS = ['pyg_base.sort orders the (key, row id) pairs as the model of C07 does (native sorted() agrees with cmp whenever it does not raise)',
+ASSUMPTIONS = ['pyg_base.sort orders the (key, row id) pairs as the model of C07 does (native sorted() agrees with cmp whenever it does not raise); '
+               'sampled directly by the _listby lines (group order and row-id order compared exactly)',
                'callables used as computed keys / modes are pure; only the named callables id, dbl, const / fst, snd, swap, lst are exercised',
                'termination of the implementation is observed through a 2 s alarm per call, in the model it is proved',
-               'keys outside the property universe are not generated: bools (True == 1 but cmp differs), containers']
+               'keys outside the property universe are not generated: bools (True == 1 but cmp differs), containers',
+               'known finding C02-K1: a non-key column named like a key column of the result is dropped by join (model copies the code; '
+               'the statement-level reference reports it, the matcher recognises exactly that input class)']
 CALL_TIMEOUT = 8
 
 D = datetime.datetime
@@ -37,10 +42,12 @@ logging.getLogger('pyg').setLevel(logging.ERROR)
 
 NAN = 'fresh-nan'          # placeholder: a fresh float('nan') object per occurrence
 SNAN = 'shared-nan'        # the one np.nan object
+XNAN = 'numpy-scalar-nan'  # a NaN held by a fresh np.float64 scalar
 INF = float('inf')
 KEYS = [None, 0, 1, 2, 3, 1.0, 2.0, 2.5, -0.25, 'a', 'b', '', D(2020, 1, 1), D(2020, 1, 2, 12), NAN, NAN, SNAN, INF, -INF,
         2 ** 53, 2 ** 53 + 1, float(2 ** 53),      # neighbouring ints beyond float precision are distinct keys
-        datetime.date(2020, 1, 1), datetime.date(2020, 1, 2)]   # a date is the datetime of its midnight (as_primitive); wire spelling DT:
+        datetime.date(2020, 1, 1), datetime.date(2020, 1, 2),   # a date is the datetime of its midnight (as_primitive); wire spelling DT:
+        XNAN, np.int64(2), np.float64(1.0)]                     # numpy scalars (what a DataFrame column hands out)
 VALS = [None, 1, 2, 'p', 'q', 0.5]
 
 
@@ -49,6 +56,8 @@ def cell(v):
         return 'F:nan'
     if v is SNAN:
         return 'NF:nan'
+    if v is XNAN:
+        return 'XF:nan'
     return enc(v)
 
 
@@ -80,9 +89,9 @@ def rand_rows(rng):
 def rand_pool(rng):
     r = rng.random()
     if r < 0.25:   # numerically equal ints / floats, None and NaN: the equalities the statement singles out
-        return rng.sample([1, 1.0, 2, 2.0, None, NAN, SNAN, 2.5], rng.choice([2, 3, 4]))
-    if r < 0.4:    # NaN heavy
-        return [NAN, SNAN, rng.choice(KEYS)]
+        return rng.sample([1, 1.0, 2, 2.0, None, NAN, SNAN, 2.5, XNAN, np.int64(1), np.float64(2.0)], rng.choice([2, 3, 4]))
+    if r < 0.4:    # NaN heavy: NaN objects of every identity
+        return [NAN, SNAN, XNAN, rng.choice(KEYS)]
     if r < 0.5:    # infinities next to finite numbers and NaN
         return rng.sample([INF, -INF, 1, 2.5, NAN, None], rng.choice([2, 3, 4]))
     if r < 0.9:    # mixed types, few values -> many duplicates, many-to-many matches
@@ -110,7 +119,7 @@ def gen_pair(rng, lnames, rnames, shared_extra=None):
 
 
 JOIN_MODES = ['mN', 'mN', 'mN', 'ml0', 'mlS', 'mlL', 'mr1', 'mrS', 'mrR', '(mf fst)', '(mf snd)', '(mf swap)', '(mf lst)']
-XOR_MODES = ['mlS', 'mlS', 'mlS', 'ml0', 'mlL', 'mrS', 'mr1', 'mrR']
+XOR_MODES = ['mlS', 'mlS', 'mlS', 'ml0', 'mlL', 'mrS', 'mr1', 'mrR', 'mN', '(mf fst)']   # None / a callable mean 'l' for xor
 
 
 def spelling(rng, lspecs, rspecs, op_ok):
@@ -137,7 +146,32 @@ def gen_case(rng):
     r = rng.random()
     nk = rng.choice([1, 1, 1, 2, 2, 3])
     names = ['a', 'b', 'c'][:nk]
-    if r < 0.5:       # same-named key columns, rcols omitted or repeated
+    if r < 0.06:      # key lists whose NAMES interact: a name twice, names exchanged, formulas on alternating sides,
+        #               non-key columns named like a key column of the other side / of the result
+        k = rng.choice(['dup', 'swap', 'alt', 'lost-right', 'lost-left', 'shared-right-key'])
+        if k == 'dup':        # one left column matched against two right columns (and the like)
+            x, y = gen_pair(rng, ['a', 'b'], ['a', 'b'])
+            ls, rs = rng.choice([(['a', 'a'], ['a', 'b']), (['a', 'b'], ['a', 'a']), (['a', 'a'], None), (['a', 'b'], ['b', 'b'])])
+        elif k == 'swap':
+            x, y = gen_pair(rng, ['a', 'b'], ['b', 'a'])
+            ls, rs = ['a', 'b'], ['b', 'a']
+        elif k == 'alt':
+            x, y = gen_pair(rng, ['a', 'b'], ['a', 'b'])
+            ls, rs = [('fn', 'id', 'a'), 'b'], ['a', ('fn', rng.choice(['id', 'dbl']), 'b')]
+        elif k == 'lost-right':   # the right table owns a non-key column named like the left key
+            x, y = gen_pair(rng, ['a'], ['k'])
+            y.insert(rng.randrange(len(y) + 1), ('a', [rng.choice(VALS) for _ in range(len(y[0][1]))]))
+            ls, rs = ['a'], rng.choice([['k'], [('fn', 'id', 'k')]])
+        elif k == 'lost-left':    # computed left key, named right key, the left table owns a column of that name
+            x, y = gen_pair(rng, ['a'], ['k'])
+            x.insert(rng.randrange(len(x) + 1), ('k', [rng.choice(VALS) for _ in range(len(x[0][1]))]))
+            ls, rs = [('fn', rng.choice(['id', 'dbl']), 'a')], ['k']
+        else:                     # the left table owns a non-key column named like the right KEY column: combined by mode
+            x, y = gen_pair(rng, ['a'], ['k'])
+            x.append(('k', [rng.choice(VALS) for _ in range(len(x[0][1]))]))
+            ls, rs = ['a'], ['k']
+        tag = 'names-' + k
+    elif r < 0.5:     # same-named key columns, rcols omitted or repeated
         x, y = gen_pair(rng, names, names)
         ls, rs = list(names), (None if rng.random() < 0.6 else list(names))
         tag = 'keyed%d' % nk
@@ -240,6 +274,15 @@ def generate(rng, tier):
             m2m += sh[1]
         yield dict(tag=tag, lines=[l])
     EXTRA.update(keyed_calls=keyed, with_duplicate_keys=dup, with_many_to_many_match=m2m)
+    # `_listby` itself: the ORDER of the groups and of the row ids inside them is what `pyg_base.sort` decides; join / xor
+    # results are compared as multisets, so only these lines sample the assumption "sort orders the (key, row id) pairs as
+    # the model's stable merge sort by cmp" directly
+    for _ in range(n // 10):
+        nk = rng.choice([1, 1, 2, 3])
+        pools = [rand_pool(rng) for _ in range(nk)]
+        rows = rng.choice([0, 1, 2, 3, 5, 8, 12])
+        keys = [[rng.choice(p) for p in pools] for _ in range(rows)]
+        yield dict(tag='listby%d' % nk, lines=['(join listby (L%s))' % ''.join(' (T%s)' % ''.join(' ' + cell(v) for v in k) for k in keys)])
     if tier != 'quick':
         ts = small_tables()
         for x in ts:
@@ -306,16 +349,22 @@ def guarded(fn, seconds=2.0):
     """run fn under a *repeating* alarm: pyg_base swallows exceptions in places (try/except around as_primitive),
     a single SIGALRM can be lost inside a spinning loop.  A call normally takes well under 10 ms; the budget
     shrinks after the first few expiries so that a tree on which many calls spin is still reported quickly."""
-    old = signal.signal(signal.SIGALRM, _tick)
-    signal.setitimer(signal.ITIMER_REAL, seconds if TIMEOUTS[0] < 3 else 0.25, 0.05)
+    # CPU time (ITIMER_VIRTUAL), not wall-clock: a spinning merge loop burns CPU whatever the load on the machine, and a loaded
+    # machine must not turn a slow call into a "did not return"; wall-clock backstop of 30 s
+    old = signal.signal(signal.SIGVTALRM, _tick)
+    old_r = signal.signal(signal.SIGALRM, _tick)
+    signal.setitimer(signal.ITIMER_VIRTUAL, seconds if TIMEOUTS[0] < 3 else 0.25, 0.05)
+    signal.setitimer(signal.ITIMER_REAL, 30.0, 0.05)
     try:
         return fn()
     except Timeout:
         TIMEOUTS[0] += 1
         raise
     finally:
+        signal.setitimer(signal.ITIMER_VIRTUAL, 0)
         signal.setitimer(signal.ITIMER_REAL, 0)
-        signal.signal(signal.SIGALRM, old)
+        signal.signal(signal.SIGVTALRM, old)
+        signal.signal(signal.SIGALRM, old_r)
 
 
 def enc_dictable(d):
@@ -340,6 +389,14 @@ def call_impl(sx):
 
 def run_line(state, sx):
     op = sx[1]
+    if op == 'listby':
+        from pyg_base import dictable
+        keys = proto.dec(sx[2])
+        nk = len(keys[0]) if keys else 1
+        names = ['k%d' % c for c in range(nk)]
+        d = dictable({nm: [k[c] for k in keys] for c, nm in enumerate(names)})
+        ks, ids = guarded(lambda: tuple(d._listby(tuple(names))))
+        return 'ok (L%s)' % ''.join(' (T %s %s)' % (enc(k), enc(list(i))) for k, i in zip(ks, ids))
     if op not in ('join', 'xor'):
         return 'bad-op'
     res, x, y = call_impl(sx)
@@ -377,11 +434,16 @@ def compare(case, i, line, ir, mr):
     if not ir.startswith('ok'):
         return 'implementation reply %s' % ir[:120]
     a, b = proto.parse(ir[3:]), proto.parse(mr[3:])
+    if line.startswith('(join listby'):
+        # group order and row-id order are not part of the statement (multisets): a difference is a divergence
+        ga = [(proto.canon(g[1]), g[2]) for g in a[1:]]
+        gb = [(proto.canon(g[1]), g[2]) for g in b[1:]]
+        return None if ga == gb else ('divergence', '_listby groups %s, model %s' % (proto.render(a)[:200], proto.render(b)[:200]))
     if not (isinstance(a, list) and len(a) == 4 and isinstance(b, list) and len(b) == 4):
         return 'the call returned something that is not a table: %s (model: %s)' % (ir[:160], mr[:160])
     # operands unchanged: the model returns its inputs as given
     for k, name in ((2, 'left'), (3, 'right')):
-        if proto.canon(a[k]) != proto.canon(b[k]):
+        if proto.canon(a[k], numeric=False) != proto.canon(b[k], numeric=False):     # type-strict: an int must stay an int
             return 'the %s operand was changed by the call' % name
     ta, tb = table_rows(a[1]), table_rows(b[1])
     if ta is None:
@@ -390,13 +452,17 @@ def compare(case, i, line, ir, mr):
         return 'result columns %s, model %s' % (ta[0], tb[0])
     if ta[1] != tb[1]:
         return 'result rows (as a multiset) differ: %d rows %s, model %d rows %s' % (ta[2], describe(ta[1] - tb[1]), tb[2], describe(tb[1] - ta[1]))
-    return None
+    # model and code agree: now the statement itself, on the implementation's reply, against a reference that shares nothing
+    # with the model (nested loops, the property's own key equality, every column of both operands)
+    return statement_check(proto.parse(line), a[1])
 
 
 def nontrivial(line, reply):
     if not reply.startswith('ok'):
         return False
     sx = proto.parse(line)
+    if sx[1] == 'listby':
+        return len(sx[2]) - 1 >= 2
     def nrows(t):
         return max([len(kv[1]) - 1 for kv in t[1:]] or [0])
     return max(nrows(sx[2]), nrows(sx[3])) >= 2
@@ -443,7 +509,10 @@ def shrink(case, still_fails):
     return dict(case, lines=[proto.render(sx)])
 
 
-# ------------------------------------------------------------------ laws: the statement, checked on the implementation alone
+# ------------------------------------------------------------------ the statement: a reference join / xor
+
+DROPPED = 'is absent from the result: it is named like the result key column'
+
 
 def keq(a, b):
     """key equality of the property statement (a datetime.date is the datetime of its midnight: the library normalises
@@ -465,66 +534,248 @@ def keq(a, b):
     return type(a) == type(b) and a == b
 
 
-def canon_py(v):
-    if isinstance(v, (list, tuple)):
-        return (type(v).__name__,) + tuple(canon_py(u) for u in v)
-    return proto.canon_cell(enc(v))
+def ckey(v):
+    """canonical token of a key cell: equal under `keq` <=> same token (ints and floats by value, dates as datetimes)"""
+    return proto.canon_cell(enc(v), numeric=True)
 
+
+def cval(v):
+    """canonical token of any other cell: type-strict (an int carried over must stay an int; numpy / NaN spellings merge)"""
+    return proto.canon(proto.parse(enc(v)), numeric=False)
+
+
+class _Raises(Exception):
+    pass
+
+
+def _ref_fn(name):
+    if name == 'const':
+        return lambda v: 0
+    if name == 'id':
+        return lambda v: v
+    def dbl(v):
+        if v is None or isinstance(v, datetime.date):
+            raise _Raises()
+        return v * 2
+    return dbl
+
+
+def call_shape(sx):
+    """what the call line says, decoded without the library: dict with the operand columns (python values), the key specs
+    as written (`N` resolved to the shared columns), the result key names and the name collisions; None when the statement
+    prescribes no table for the call (lengths differ, a formula on both sides, a missing column)"""
+    xt = [(unhex(kv[0]), [proto.dec_cell(c) for c in kv[1][1:]]) for kv in sx[2][1:]]
+    yt = [(unhex(kv[0]), [proto.dec_cell(c) for c in kv[1][1:]]) for kv in sx[3][1:]]
+    xc, yc = [k for k, _ in xt], [k for k, _ in yt]
+    def specs(s):
+        return [proto.dec_cell(e) if isinstance(e, str) else (e[1], proto.dec_cell(e[2]) if len(e) > 2 else None) for e in s[1:]]
+    ls = [k for k in xc if k in yc] if sx[4] == 'N' else specs(sx[4])
+    rs = list(ls) if sx[5] == 'N' else specs(sx[5])
+    if len(ls) != len(rs):
+        return None
+    cols = []
+    for l, r in zip(ls, rs):
+        if isinstance(l, str):
+            cols.append(l)
+        elif isinstance(r, str):
+            cols.append(r)
+        elif sx[1] == 'xor':
+            cols.append(None)     # a formula on both sides: fine for xor, which names no result column
+        else:
+            return None
+    lnames, rnames = [l for l in ls if isinstance(l, str)], [r for r in rs if isinstance(r, str)]
+    if any(k not in xc for k in lnames) or any(k not in yc for k in rnames):
+        return None
+    nx, ny = len(xt[0][1]) if xt else 0, len(yt[0][1]) if yt else 0
+    if nx and any(not isinstance(l, str) and l[1] is not None and l[1] not in xc for l in ls):
+        return None     # the formula's argument is not a column: TypeError on the first row
+    if ny and any(not isinstance(r, str) and r[1] is not None and r[1] not in yc for r in rs):
+        return None
+    return dict(x=dict(xt), y=dict(yt), xc=xc, yc=yc, ls=ls, rs=rs, cols=cols, lnames=lnames, rnames=rnames,
+                nx=nx, ny=ny,
+                # a column of one side that is NOT that side's key but is named like a key column of the result:
+                # the statement wants it in the result, a table cannot hold two columns of one name
+                lost_x=[k for k in xc if k in cols and k not in lnames],
+                lost_y=[k for k in yc if k in cols and k not in rnames])
+
+
+def row_keys(t, n, specs):
+    """the key tuple of every row (python values); raises _Raises when a formula raises"""
+    out = []
+    for i in range(n):
+        key = []
+        for s in specs:
+            if isinstance(s, str):
+                key.append(t[s][i])
+            else:
+                key.append(_ref_fn(s[0])(t[s[1]][i] if s[1] is not None else None))
+        out.append(tuple(key))
+    return out
+
+
+def ref_mode(m):
+    if isinstance(m, str):
+        return {'mN': lambda l, r: (l, r), 'ml': lambda l, r: l, 'mr': lambda l, r: r}[m[:2]]
+    return PY_FNS[m[1]]
+
+
+def impl_table(sx):
+    """(D (col (L cells))*) of a reply -> {name: [parsed cells]}"""
+    return {unhex(kv[0]): kv[1][1:] for kv in sx[1:]}
+
+
+def statement_check(sx, res):
+    """the property statement evaluated on the table `res` (parsed reply) that the implementation returned for the call
+    `sx`: None, or the sentence that fails"""
+    sh = call_shape(sx)
+    if sh is None:
+        return 'the call returned a table although it names a missing column / mismatching key lists'
+    try:
+        lk, rk = row_keys(sh['x'], sh['nx'], sh['ls']), row_keys(sh['y'], sh['ny'], sh['rs'])
+    except _Raises:
+        return 'the call returned a table although a key formula raises on some row'
+    nx, ny, cols = sh['nx'], sh['ny'], sh['cols']
+    match = [[all(keq(p, q) for p, q in zip(lk[i], rk[j])) for j in range(ny)] for i in range(nx)]
+    got = impl_table(res)
+    ns = set(len(v) for v in got.values())
+    if len(ns) > 1:
+        return 'result is not rectangular'
+    n = ns.pop() if ns else 0
+    if sx[1] == 'xor':
+        right = isinstance(sx[6], str) and sx[6].startswith('mr')
+        if not cols:
+            want_t, ids = sh['x'], list(range(nx))
+            names = sh['xc']
+        elif right:
+            want_t, names = sh['y'], sh['yc']
+            ids = [j for j in range(ny) if not any(match[i][j] for i in range(nx))]
+        else:
+            want_t, names = sh['x'], sh['xc']
+            ids = [i for i in range(nx) if not any(match[i])]
+        if sorted(got) != sorted(names):
+            return 'xor returned the columns %s, the operand has %s' % (sorted(got), sorted(names))
+        names = sorted(names)
+        want = Counter(tuple(cval(want_t[k][i]) for k in names) for i in ids)
+        have = Counter(tuple(proto.canon(got[k][p], numeric=False) for k in names) for p in range(n))
+        if want != have:
+            return 'xor rows %s, the rows of the operand whose key matches no row of the other %s' % (describe(have - want), describe(want - have))
+        return None
+    # ---- join
+    if len(set(cols)) != len(cols):
+        # one name for two key columns: the table can show only one of them; check the remaining columns
+        keycols = []
+    else:
+        keycols = list(cols)
+    both = [k for k in sh['xc'] if k in sh['yc'] and k not in cols]
+    only_x = [k for k in sh['xc'] if k not in sh['yc'] and k not in cols]
+    only_y = [k for k in sh['yc'] if k not in sh['xc'] and k not in cols]
+    # a key column of the right table whose name is not a result key name may be carried or not (the key is in the result
+    # under the left name): checked when present
+    optional = [k for k in only_y if k in sh['rnames']]
+    required = set(cols) | set(both) | set(only_x) | set(k for k in only_y if k not in optional)
+    missing = sorted(required - set(got))
+    if missing:
+        return 'column(s) %s of the operands are missing from the result (columns %s)' % (missing, sorted(got))
+    extra = sorted(set(got) - required - set(optional))
+    if extra:
+        return 'the result has column(s) %s that neither operand has' % (extra,)
+    mode = ref_mode(sx[6])
+    names = sorted(set(keycols) | set(both) | set(only_x) | set(k for k in only_y if k in got))
+    def want_row(i, j):
+        row = []
+        for k in names:
+            if k in keycols:
+                row.append(ckey(lk[i][cols.index(k)]))
+            elif k in both:
+                row.append(cval(mode(sh['x'][k][i], sh['y'][k][j])))
+            elif k in only_x:
+                row.append(cval(sh['x'][k][i]))
+            else:
+                row.append(cval(sh['y'][k][j]))
+        return tuple(row)
+    want = Counter(want_row(i, j) for i in range(nx) for j in range(ny) if match[i][j])
+    have = Counter(tuple(proto.canon(got[k][p], numeric=(k in keycols)) for k in names) for p in range(n))
+    if want != have:
+        return ('joined rows (columns %s) are not the key-equal pairs of rows with every column of both sides: unexpected %s, '
+                'missing %s' % (names, describe(have - want), describe(want - have)))
+    if sh['lost_x'] or sh['lost_y']:
+        return 'non-key column %s of the %s operand %s %r' % (
+            (sh['lost_x'] + sh['lost_y'])[0], 'left' if sh['lost_x'] else 'right', DROPPED, cols)
+    return None
+
+
+def dropped_column_class(f):
+    """known finding K4: the call's key specs give a result key column a name that a NON-key column of the left table
+    (computed left key, named right key) or of the right table (differently named right key) also has; the rest of the
+    statement held on this call (the sentence is produced only after every other check passed)"""
+    if DROPPED not in f.detail or not f.case.get('lines'):
+        return False
+    sx = proto.parse(f.case['lines'][getattr(f, 'line_index', 0) or 0])
+    sh = call_shape(sx)
+    return sx[1] == 'join' and sh is not None and bool(sh['lost_x'] or sh['lost_y'])
+
+
+# ------------------------------------------------------------------ laws: the statement, checked on the implementation alone
 
 def laws(rng, tier, ctx):
-    """for random key-joined tables (keys named on both sides): the result rows are exactly the key-equal pairs,
-    xor is exactly the unmatched left rows, every left row lies in exactly one of the two, the calls return"""
-    from pyg_base import dictable
+    """the statement on the implementation alone, on fresh inputs of every generated kind (named / renamed / computed keys,
+    no key, shared non-key columns under every mode, rejected calls): the reference join / xor of `statement_check`, and for
+    keyed calls the left-join partition: every row of x is in exactly one of x/y (once) and the matched part of x*y"""
     n = 400 if tier == 'quick' else 6000
     count = 0
     for _ in range(n):
-        nk = rng.choice([1, 1, 2, 3])
-        names = ['a', 'b', 'c'][:nk]
-        x, y = gen_pair(rng, names, names, shared_extra=False)
-        l = line('join', x, y, names, None, 'mN', 'sp:ln')
-        case = dict(tag='law-join', lines=[l])
+        tag, l = gen_case(rng)
+        case = dict(tag='law-' + tag, lines=[l])
         sx = proto.parse(l)
-        dx, dy = dec_table(sx[2]), dec_table(sx[3])
-        nx, ny = len(dx), len(dy)
-        lk = list(zip(*[dx[k] for k in names])) if nx else []
-        rk = list(zip(*[dy[k] for k in names])) if ny else []
-        match = [[all(keq(p, q) for p, q in zip(lk[i], rk[j])) for j in range(ny)] for i in range(nx)]
+        sh = call_shape(sx)
+        valid = sh is not None
+        if valid:
+            try:
+                row_keys(sh['x'], sh['nx'], sh['ls']), row_keys(sh['y'], sh['ny'], sh['rs'])
+            except _Raises:
+                valid = False
         count += 1
         try:
-            j = guarded(lambda: dx.join(dy, names))
-            xo = guarded(lambda: dx.xor(dy, names))
+            res, dx, dy = call_impl(sx)
+        except Timeout:
+            yield Finding('violation', case, 'the call did not return within its time budget')
+            continue
+        except Exception as e:
+            if valid:
+                yield Finding('violation', case, 'the call raised %s where the statement prescribes a table' % type(e).__name__)
+            continue
+        if not isinstance(res, pyg_base.dictable):
+            yield Finding('violation', case, 'the call returned a %s' % type(res).__name__)
+            continue
+        if not valid:
+            yield Finding('divergence', case, 'the call returned a table although its key specs are inconsistent')
+            continue
+        d = statement_check(sx, proto.parse(enc_dictable(res)))
+        if d is not None:
+            f = Finding('violation', case, 'line 0: ' + d)
+            f.line_index = 0
+            yield f
+            continue
+        # partition (keyed calls; `v` = 100 + i identifies the rows of x)
+        if not sh['cols'] or None in sh['cols'] or 'v' not in sh['x'] or 'v' in sh['cols']:
+            continue
+        ls, rs = dec_specs(sx[4], 'l'), dec_specs(sx[5], 'l')
+        try:
+            jn = guarded(lambda: dx.join(dy, ls, rs, 'l'))
+            xo = guarded(lambda: dx.xor(dy, ls, rs))
         except Timeout:
             yield Finding('violation', case, 'join / xor did not return within its time budget')
             continue
-        except Exception as e:
-            yield Finding('violation', case, 'join / xor raised %s on a valid call' % type(e).__name__)
-            continue
-        # the v / u columns identify the rows: v = 100 + i, u = 200 + j
-        got = Counter(zip(j['v'], j['u'])) if len(j) else Counter()
-        want = Counter((100 + i, 200 + jj) for i in range(nx) for jj in range(ny) if match[i][jj])
-        if got != want:
-            yield Finding('violation', case, 'joined (left row, right row) pairs %s, key-equal pairs %s' % (sorted(got.elements()), sorted(want.elements())))
-            continue
-        bad = None
-        for p in range(len(j)):
-            i, jj = j['v'][p] - 100, j['u'][p] - 200
-            for c, k in enumerate(names):
-                if not (keq(j[k][p], lk[i][c]) and keq(j[k][p], rk[jj][c])):
-                    bad = 'result row %d carries key %r, its rows have %r / %r' % (p, j[k][p], lk[i][c], rk[jj][c])
-        if bad:
-            yield Finding('violation', case, bad)
-            continue
-        gotx = Counter(xo['v']) if len(xo) else Counter()
-        wantx = Counter(100 + i for i in range(nx) if not any(match[i]))
-        if gotx != wantx:
-            yield Finding('violation', dict(tag='law-xor', lines=[line('xor', x, y, names, None, 'mlS', 'sp:ln')]),
-                          'xor rows %s, unmatched left rows %s' % (sorted(gotx.elements()), sorted(wantx.elements())))
-            continue
-        # partition: every left row is in exactly one of xor and the left projection of the join
-        inj = set(v for v, _ in got)
-        if any((100 + i in inj) == (gotx[100 + i] == 1) or gotx[100 + i] > 1 for i in range(nx)):
-            yield Finding('violation', case, 'x*y + x/y is not the left join')
+        inj = Counter(jn['v']) if len(jn) else Counter()
+        inx = Counter(xo['v']) if len(xo) else Counter()
+        lk, rk = row_keys(sh['x'], sh['nx'], sh['ls']), row_keys(sh['y'], sh['ny'], sh['rs'])
+        for i in range(sh['nx']):
+            m = sum(1 for j in range(sh['ny']) if all(keq(p, q) for p, q in zip(lk[i], rk[j])))
+            if inj[100 + i] != m or inx[100 + i] != (1 if m == 0 else 0):
+                yield Finding('violation', case, 'x*y + x/y is not the left join: row %d of x has %d matching rows of y, occurs %d times '
+                              'in x*y and %d times in x/y' % (i, m, inj[100 + i], inx[100 + i]))
+                break
     yield count
 
 
-MATCHERS = {}
+MATCHERS = {'join_drops_column_named_like_key': dropped_column_class}
